@@ -176,6 +176,7 @@ func (r *Recorder) transition(ctx context.Context, spec *common.Spec, epc *commo
 	if err != nil {
 		return err
 	}
+	r.LastSlot = int(env.Slot)
 	ev := &blockEvent{Ev: kind, Variant: variant, Class: class, Oracle: oracle, ExpectValid: r.ExpectValid, Pre: r.negPre}
 	var ret error
 	func() {
